@@ -75,7 +75,8 @@ def pending (w : World) : List Nat := pend w.queue
 /-- **the ledger invariant**, spelled out: the serials pending, destroyed by the current operation, and destroyed
     earlier (`D`) are pairwise distinct and have all been allocated -/
 def LedgerOK (D : List Nat) (w : World) : Prop :=
-  (pending w ++ w.edrops ++ D).Nodup ∧ ∀ s ∈ pending w ++ w.edrops ++ D, s < w.nextESerial
+  0 < w.nextESerial ∧ (pending w ++ w.edrops ++ D).Nodup ∧
+  ∀ s ∈ pending w ++ w.edrops ++ D, 0 < s ∧ s < w.nextESerial
 
 theorem ledgerOK_iff {D : List Nat} {w : World} : LedgerOK D w ↔ Led D w := by
   have p : (pending w ++ w.edrops ++ D).Perm (D ++ (pend w.queue ++ w.edrops)) := by
@@ -83,15 +84,15 @@ theorem ledgerOK_iff {D : List Nat} {w : World} : LedgerOK D w ↔ Led D w := by
   exact ⟨fun h => Acct.perm h p, fun h => Acct.perm h p.symm⟩
 
 /-- the empty world satisfies it -/
-theorem ledgerOK_init : LedgerOK [] {} := ⟨List.nodup_nil, fun _ h => nomatch h⟩
+theorem ledgerOK_init : LedgerOK [] {} := ⟨Nat.one_pos, List.nodup_nil, (fun _ h => nomatch h)⟩
 
 /-- in particular the ledger of the current operation has no duplicates, and is disjoint from what is pending -/
 theorem LedgerOK.edrops_nodup {D : List Nat} {w : World} (h : LedgerOK D w) : w.edrops.Nodup :=
-  (List.nodup_append.1 (List.nodup_append.1 h.1).1).2.1
+  (List.nodup_append.1 (List.nodup_append.1 h.2.1).1).2.1
 
 theorem LedgerOK.pending_not_dropped {D : List Nat} {w : World} (h : LedgerOK D w) {s : Nat} (hp : s ∈ pending w) :
     s ∉ w.edrops ∧ s ∉ D := by
-  have h1 := List.nodup_append.1 h.1
+  have h1 := List.nodup_append.1 h.2.1
   have h2 := List.nodup_append.1 h1.1
   exact ⟨fun he => h2.2.2 s hp s he rfl, fun hd => h1.2.2 s (List.mem_append_left _ hp) s hd rfl⟩
 
@@ -189,11 +190,12 @@ theorem step_ledger {D : List Nat} {w : World} {op : Op} (h : LedgerOK D w) (hm 
 /-- **every history without a marker**: the invariant holds at the end, with the ledger of the whole history -/
 theorem history_ledger {D : List Nat} {w : World} (ops : List Op) (h : LedgerOK D w) (hm : NoMarkerHist w ops) :
     (pending (runHist w ops) ++ (histDrops w ops ++ w.edrops) ++ D).Nodup ∧
-    ∀ s ∈ pending (runHist w ops) ++ (histDrops w ops ++ w.edrops) ++ D, s < (runHist w ops).nextESerial := by
+    ∀ s ∈ pending (runHist w ops) ++ (histDrops w ops ++ w.edrops) ++ D,
+      0 < s ∧ s < (runHist w ops).nextESerial := by
   induction ops generalizing w D with
   | nil =>
     rw [runHist_nil, histDrops_nil, List.nil_append]
-    exact h
+    exact h.2
   | cons op ops ih =>
     have h1 := step_ledger h hm.1
     have := ih h1 hm.2
@@ -255,7 +257,8 @@ theorem reachE_of_reachSD {w : World} (h : C01.ReachSD true w) : ReachE w := by
   | step op _ _ hok ih => exact .step op ih (noMarker_of_stepOk hok)
   | panic op _ _ hp _ ih => exact .step op ih (noMarker_of_stepPanic hp)
 
-theorem ledgerOK_init_release : LedgerOK [] { debug := false } := ⟨List.nodup_nil, fun _ h => nomatch h⟩
+theorem ledgerOK_init_release : LedgerOK [] { debug := false } :=
+  ⟨Nat.one_pos, List.nodup_nil, (fun _ h => nomatch h)⟩
 
 /-- every reachable world satisfies the ledger invariant (for the serials destroyed by the earlier operations) -/
 theorem reachE_ledger {w : World} (h : ReachE w) : ∃ D, LedgerOK D w := by
@@ -506,8 +509,8 @@ theorem QuietHist.queue_nil {w : World} {ops : List Op} (h : QuietHist w ops) (h
     queued when they did) is in the operation's ledger, exactly once: destroyed after its delivery, at a dead target,
     rejected by a failing `Sender::send`, by the unwinding guard, by `dropQueued`, or — taken — by the handler that took
     it.  None lost, none twice. -/
-theorem op_destroys_what_it_creates {w : World} {op : Op} (tw : TW w) (hq : w.queue = []) (hm : NoMarker w op)
-    (hf : NoFuel w op) :
+theorem op_destroys_what_it_creates {w : World} {op : Op} (tw : TW w) (hpos : 0 < w.nextESerial)
+    (hq : w.queue = []) (hm : NoMarker w op) (hf : NoFuel w op) :
     (step w op).1.queue = [] ∧ (step w op).1.edrops.Nodup ∧
     (∀ s, w.nextESerial ≤ s → s < (step w op).1.nextESerial → s ∈ (step w op).1.edrops) ∧
     (∀ s ∈ (step w op).1.edrops, w.nextESerial ≤ s → s < (step w op).1.nextESerial) := by
@@ -517,7 +520,7 @@ theorem op_destroys_what_it_creates {w : World} {op : Op} (tw : TW w) (hq : w.qu
       (conserved_base [] _) hm).2
   -- no double destruction: the ledger invariant with `D := every serial allocated before`
   have hL : LedgerOK [] { w with edrops := [] } := by
-    refine ⟨?_, fun s hs => ?_⟩
+    refine ⟨hpos, ?_, fun s hs => ?_⟩
     · show (pend w.queue ++ [] ++ []).Nodup
       rw [hq]; exact List.nodup_nil
     · have : s ∈ pend w.queue ++ [] ++ [] := hs
@@ -530,7 +533,7 @@ theorem op_destroys_what_it_creates {w : World} {op : Op} (tw : TW w) (hq : w.qu
     · unfold pending at h3; rw [hq'] at h3; cases h3
     · exact h3
     · simp at h3
-  · exact hs.2 s (List.mem_append_left _ (List.mem_append_right _ hs'))
+  · exact (hs.2.2 s (List.mem_append_left _ (List.mem_append_right _ hs'))).2
 
 /-- **(C) whole histories from the empty world: every user event value ever created has been destroyed exactly once.**
     After any history of top-level operations (each returned or panicked): nothing is queued; the ledger of the history has
@@ -539,7 +542,7 @@ theorem op_destroys_what_it_creates {w : World} {op : Op} (tw : TW w) (hq : w.qu
 theorem history_quiescent {ops : List Op} (h : QuietHist {} ops) :
     (runHist {} ops).queue = [] ∧
     (histDrops {} ops).Nodup ∧
-    (∀ s ∈ histDrops {} ops, s < (runHist {} ops).nextESerial) ∧
+    (∀ s ∈ histDrops {} ops, 0 < s ∧ s < (runHist {} ops).nextESerial) ∧
     (∀ s, 1 ≤ s → s < (runHist {} ops).nextESerial → s ∈ histDrops {} ops) := by
   have hq := h.queue_nil rfl
   have h1 := history_ledger ops ledgerOK_init h.noMarker
@@ -551,6 +554,20 @@ theorem history_quiescent {ops : List Op} (h : QuietHist {} ops) :
   rcases h2 s hs1 hs2 with h3 | h3
   · rw [hp] at h3; cases h3
   · simpa using h3
+
+/-- **(C), in one line: the ledger of a history from the empty world is a permutation of `1, 2, …, nextESerial - 1`** —
+    exactly the event values created, each exactly once -/
+theorem history_ledger_exact {ops : List Op} (h : QuietHist {} ops) :
+    (histDrops {} ops).Perm (List.range' 1 ((runHist {} ops).nextESerial - 1)) := by
+  obtain ⟨-, h1, h2, h3⟩ := history_quiescent h
+  refine (List.perm_ext_iff_of_nodup h1 (List.nodup_range' ..)).2 fun s => ?_
+  rw [List.mem_range'_1]
+  constructor
+  · intro hs
+    have := h2 s hs
+    omega
+  · intro hs
+    exact h3 s hs.1 (by omega)
 
 /-- … and from any world satisfying the invariants with an empty queue: what the history allocates, it destroys —
     exactly once -/
@@ -567,7 +584,7 @@ theorem history_destroys_what_it_creates {D : List Nat} {w : World} {ops : List 
   · simp only [List.append_nil, List.mem_append] at h3
     rcases h3 with h3 | h3
     · exact h3
-    · have := hl.2 s (List.mem_append_left _ (List.mem_append_right _ h3))
+    · have := (hl.2.2 s (List.mem_append_left _ (List.mem_append_right _ h3))).2
       omega
 
 /-! ### the worlds of C01: no hypothesis on the outcome left
@@ -588,7 +605,7 @@ theorem tw_init_release : TW { debug := false } where
 theorem reachSD_invariants {d : Bool} {w : World} (h : C01.ReachSD d w) : (∃ D, LedgerOK D w) ∧ TW w := by
   induction h with
   | init =>
-    refine ⟨⟨[], List.nodup_nil, (fun _ h => nomatch h)⟩, ?_⟩
+    refine ⟨⟨[], Nat.one_pos, List.nodup_nil, (fun _ h => nomatch h)⟩, ?_⟩
     cases d
     · exact tw_init_release
     · exact tw_init
@@ -610,7 +627,7 @@ theorem reachSD_op_destroys_what_it_creates {d : Bool} {w : World} {op : Op} (h 
     (step w op).1.queue = [] ∧ (step w op).1.edrops.Nodup ∧
     (∀ s, w.nextESerial ≤ s → s < (step w op).1.nextESerial → s ∈ (step w op).1.edrops) ∧
     (∀ s ∈ (step w op).1.edrops, w.nextESerial ≤ s → s < (step w op).1.nextESerial) :=
-  op_destroys_what_it_creates (reachSD_invariants h).2
+  op_destroys_what_it_creates (reachSD_invariants h).2 (reachSD_invariants h).1.choose_spec.1
     (C01.reachSD_inv h (small_of_step' w op hv.1 hs)).2.1.1 (reachSD_noMarker h hv hs) hf
 
 /-! ## (E) non-vacuity: a history with a `take`, a panic in the middle of a propagation, a dead target
@@ -705,7 +722,7 @@ theorem demo_forever (more : List Op) (hm : NoMarkerHist (runHist {} demoOps) mo
   -- the world after the demo satisfies the invariant with `D := the ledgers of the first six operations`
   have hL : LedgerOK (histDrops {} (demoOps.take 6)) (runHist {} demoOps) := by
     have e : histDrops {} demoOps = (runHist {} demoOps).edrops ++ histDrops {} (demoOps.take 6) := by decide +kernel
-    refine ⟨?_, fun s hs => h0.2 s ?_⟩
+    refine ⟨by rw [demo_eval.2.2.2.2.1]; decide, ?_, fun s hs => h0.2 s ?_⟩
     · have := h0.1
       rw [hq, List.nil_append, List.append_nil, List.append_nil, e] at this
       rw [hq, List.nil_append]
@@ -791,7 +808,7 @@ theorem demo_panicking_op :
     unfold NoFuel
     have : noFuelB w (.send 0) = true := by decide +kernel
     exact noFuel_of_check this
-  obtain ⟨h1, h2, h3, -⟩ := op_destroys_what_it_creates tw hw hm hf
+  obtain ⟨h1, h2, h3, -⟩ := op_destroys_what_it_creates tw (by decide +kernel) hw hm hf
   exact ⟨h1, h2, h3⟩
 
 #print axioms execOp_ledger
@@ -819,6 +836,7 @@ theorem demo_panicking_op :
 #print axioms reachE_tw
 #print axioms op_destroys_what_it_creates
 #print axioms history_quiescent
+#print axioms history_ledger_exact
 #print axioms history_destroys_what_it_creates
 #print axioms reachSD_invariants
 #print axioms reachSD_op_destroys_what_it_creates
